@@ -172,8 +172,9 @@ Inductive uop :=
 | UTcpReadRaw (s bufsize h : Z) (loop : bool).     (* loop: re-issued after every successful completion *)                    (* async_read_some whose handler also reports the bytes *)   (* async_write_some of explicit bytes *)                 (* verification hook: simulation::verif_set_next_bind_port *)
 
 (* state of the two composed operations the harness offers (one per socket) *)
-Record wall := mkWall { wa_rest : list Z; wa_done : Z; wa_chunk : Z; wa_h : Z }.
-Record rall := mkRall { ra_buf : Z; ra_total : Z; ra_a : Z; ra_c : Z; ra_h : Z }.
+(* one record per composed operation (not per socket): two composed writes on one socket are two operations *)
+Record wall := mkWall { wa_sock : Z; wa_rest : list Z; wa_done : Z; wa_chunk : Z; wa_h : Z }.
+Record rall := mkRall { ra_sock : Z; ra_buf : Z; ra_total : Z; ra_a : Z; ra_c : Z; ra_h : Z }.
 
 (* sim::http_proxy *)
 Record proxy := mkProxy {
